@@ -116,3 +116,15 @@ std::string spec_of(const Bytes &b);	// compact spec (uses c<len>x<hh> for runs)
 struct sim_sched_cfg;
 std::string sched_cfg_gen(Rng &r, uint64_t expected_steps);
 void sched_cfg_parse(const std::string &s, sim_sched_cfg *out);
+
+// ---- which of the scheduler's start routines are pool workers?
+// By the symbol name of the start routine (read from the executable's own .symtab): `thread_worker` is a pool worker,
+// `result_worker` a result handler.  If the library ever names them differently the exact rule cannot be applied and
+// only the sound total holds: live threads <= 1 + caller tasks + result handlers + configured workers.
+struct sim_sched_stats;
+std::string symbol_of(const void *fn);
+struct PoolThreads { bool named = false; uint32_t worker_max = 0, workers_created = 0; };
+PoolThreads pool_threads(const sim_sched_stats &st);
+// "" or a description of the violated bound
+std::string worker_bound_broken(const sim_sched_stats &st, uint32_t limit, uint32_t ntasks, uint32_t nhandlers);
+
